@@ -546,7 +546,10 @@ __find_trno(const struct zif_s z[static 1U], stamp_t t, int min, int max)
 		return -1;
 	} else if (UNLIKELY(t < zif_trans(z, min))) {
 		return -1;
-	} else if (UNLIKELY(t > zif_trans(z, max))) {
+	} else if (UNLIKELY(t >= zif_trans(z, max))) {
+		/* zif_trans() clamps to the last transition, so this also
+		 * catches T exactly on it, where the bisection below would
+		 * not terminate */
 		return max - 1;
 	}
 
